@@ -167,3 +167,27 @@ def utf16_runs(data: bytes, minrun: int = 7):
         else:
             i += 1
     return out
+
+
+def stated_xor_key(text: bytes):
+    """The single-byte key a script states: the number (1-3 digits) after the FIRST '-xor' / '-bxor' operator (any letter case, optional
+    white space between operator and number).  None if the text states none."""
+    low = bytes(text).lower()
+    i = 0
+    while True:
+        j = low.find(b"xor", i)
+        if j < 0:
+            return None
+        k = j - 1
+        if k >= 0 and low[k : k + 1] == b"b":
+            k -= 1
+        if k >= 0 and low[k : k + 1] == b"-":
+            p = j + 3
+            while p < len(low) and low[p : p + 1] in b" \t\r\n\x0b\x0c":
+                p += 1
+            q = p
+            while q < len(low) and q - p < 3 and low[q : q + 1].isdigit():
+                q += 1
+            if q > p:
+                return int(low[p:q])
+        i = j + 3
